@@ -59,7 +59,9 @@ class StreamReader {
   }
 
   Status<void> Skip(std::size_t padding_bytes) {
-    stream_.seekg(padding_bytes, std::ios_base::cur);
+    stream_.ignore(padding_bytes);
+    if (static_cast<std::size_t>(stream_.gcount()) != padding_bytes)
+      return ErrorStatus::StreamError;
     return ReturnStatus();
   }
 
@@ -69,7 +71,7 @@ class StreamReader {
 
  private:
   Status<void> ReturnStatus() {
-    if (stream_.bad() || stream_.eof())
+    if (stream_.fail() || stream_.eof())
       return ErrorStatus::StreamError;
     else
       return {};
